@@ -210,6 +210,36 @@ op('ucross', n=2, call=lambda a, b: a.ucross(b),
 op('with_norm', n=1, call=lambda a: a.with_norm(2.), fail=lambda v: (0, np.all(v[0] == 0, axis=-1)), ref=None)
 
 
+# in-place operators: the target is a fresh copy; the result IS the target
+import operator as _op
+INPLACE = {'iadd': ('add', _op.iadd), 'isub': ('sub', _op.isub), 'imul': ('mul', _op.imul), 'idiv': ('div', _op.itruediv),
+           'ifloordiv': ('floordiv', _op.ifloordiv), 'imod': ('mod', _op.imod), 'ipow': ('pow', _op.ipow)}
+
+
+def _inplace_call(f):
+    def call(a, b):
+        t = a.copy() if isinstance(a, Qube) else a
+        return f(t, b)
+    return call
+
+
+def _matdiv_fail(v):
+    x = v[1]
+    if x.ndim >= 2 and x.shape[-1] == x.shape[-2] and x.shape[-1] in (2, 3):
+        return (1, singular(x))
+    return (1, np.asarray(x) == 0)
+
+
+for _n, (_base, _f) in INPLACE.items():
+    op(_n, n=2, call=_inplace_call(_f), fail=OPS[_base]['fail'], ref=None, inplace=_base)
+op('imatmul', n=2, call=_inplace_call(_op.imul), fail=None, ref=None, inplace='matmul')
+op('imatdiv', n=2, call=_inplace_call(_op.itruediv), fail=lambda v: (1, singular(v[1])), ref=None, inplace='matdiv')
+op('imatdiv3', n=2, call=_inplace_call(_op.itruediv), fail=None, ref=None, inplace='matdiv')   # Matrix3: reciprocal = transpose
+op('ivmul', n=2, call=_inplace_call(_op.imul), fail=None, ref=None, inplace='vmul')
+op('ivdiv', n=2, call=_inplace_call(_op.itruediv), fail=_div_fail, ref=None, inplace='vdiv')
+op('ivadd', n=2, call=_inplace_call(_op.iadd), fail=None, ref=None, inplace='add')
+op('ivsub', n=2, call=_inplace_call(_op.isub), fail=None, ref=None, inplace='sub')
+
 # ------------------------------------------------------------------ operand provenance: views of one parent object
 def py_index(sel):
     """('i', k) -> k ; ('s', start, stop, step) -> slice"""
